@@ -119,7 +119,7 @@ def sortStrs (l : List String) : List String := l.foldr insertSorted []
 def expandAll (l : List String) : List String :=
   if l.contains "ALL" then l.filter (· ≠ "ALL") ++ stdMethods else l
 
-/-- `createMethodMatcher`: `none` is the configuration error for an empty entry -/
+/-- `createMethodMatcher`: `none` is the configuration error (an empty entry, a list allowing no method) -/
 def mkMethods (l : List String) : Option (List String) :=
   if l.isEmpty then some [] else
   let l2 := compact (sortStrs (expandAll l))
@@ -127,7 +127,10 @@ def mkMethods (l : List String) : Option (List String) :=
   let tbr := l2.filter isNeg
   let l3 := l2.filter (fun s => !tbr.contains s)
   let tbr' := tbr.map dropBang
-  some (l3.filter (fun s => !tbr'.contains s))
+  let res := l3.filter (fun s => !tbr'.contains s)
+  -- a list that allows no method at all (only exclusions, or everything excluded again) is a configuration error:
+  -- an empty matcher would stand for "any method"
+  if res.isEmpty then none else some res
 
 structure RouteM where
   scheme  : String
